@@ -507,6 +507,75 @@ def run_twosheet_fill(shape, fill, ctx, only=None):
             rec.fail(key, tags, inputs, obs_of(want), got, True)
 
 
+# ---------------------------------------------------------------- after a change
+def run_change(ctx):
+    """"The addressed values" are the values the cells hold NOW: after a cell
+    of the rectangle was changed - by this evaluator, on the model, or by
+    another evaluator over the model - every aggregate is the fold of the new
+    contents."""
+    nr, nc = 3, 2
+    base = [[1, 5], [2, 7], [3, 9]]
+    r = render_piece(('r', 0, 0, nr - 1, nc - 1), force_range=True)
+    ra = render_piece(('r', 0, 0, nr - 1, 0), force_range=True)
+    rb = render_piece(('r', 0, 1, nr - 1, 1), force_range=True)
+    cells = {}
+    for i in range(nr):
+        for j in range(nc):
+            cells['Sheet1!' + addr(i, j)] = base[i][j]
+    probes = {}
+    for k, fn in enumerate(FNS):
+        probes[fn] = 'Sheet1!%s%d' % (PROBE_COL, k + 1)
+        cells[probes[fn]] = '=%s(%s)' % (fn, r)
+    probes['SUMPRODUCT'] = 'Sheet1!%s%d' % (PROBE_COL, len(FNS) + 1)
+    cells[probes['SUMPRODUCT']] = '=SUMPRODUCT(%s,%s)' % (ra, rb)
+    for i in range(nr):
+        for j in range(nc):
+            for newv in (-4, None, 'x'):
+                for how in ('evaluator', 'model', 'second-evaluator'):
+                    model = lib.compile_dict(cells)
+                    ev = lib.Evaluator(model)
+                    for a in probes.values():
+                        lib.eval_addr(model, a, ev)
+                    target = 'Sheet1!' + addr(i, j)
+                    if how == 'evaluator':
+                        ev.set_cell_value(target, newv)
+                    elif how == 'model':
+                        model.set_cell_value(target, newv)
+                    else:
+                        lib.Evaluator(model).set_cell_value(target, newv)
+                    grid = [list(row) for row in base]
+                    grid[i][j] = newv
+                    g = tuple(tuple(row) for row in grid)
+                    key0 = 'C14/change/%s:=%r/%s' % (addr(i, j), newv, how)
+                    inputs = {'family': 'change'}
+                    tags = {'family:after-change', 'set:' + how}
+                    for fn in FNS:
+                        got = lib.eval_addr(model, probes[fn], ev)
+                        try:
+                            want = ref.aggregate(fn, [('range', g)])
+                        except ref.Unjudged as u:
+                            ctx.skip(u.args[0])
+                            continue
+                        if agrees(fn, want, got):
+                            ctx.ok('%s/%s' % (key0, fn), got, True)
+                        else:
+                            ctx.fail('%s/%s' % (key0, fn),
+                                     sorted(tags | {'fn:' + fn}), inputs,
+                                     obs_of(want), got, True)
+                    got = lib.eval_addr(model, probes['SUMPRODUCT'], ev)
+                    ga = tuple((row[0],) for row in grid)
+                    gb = tuple((row[1],) for row in grid)
+                    kind, want, accepted = ref.sumproduct([ga, gb])
+                    if lib.is_num_obs(got) and any(
+                            lib.num_of(got) == float(a) for a in accepted):
+                        ctx.ok(key0 + '/SUMPRODUCT', got, True)
+                    else:
+                        ctx.fail(key0 + '/SUMPRODUCT',
+                                 sorted(tags | {'fn:SUMPRODUCT'}), inputs,
+                                 obs_of(want), got, True)
+                    lib.clear_caches()
+
+
 SMALL = ((1, 1), (1, 2), (2, 1), (1, 3), (3, 1), (2, 2))
 SIX = ((2, 3), (3, 2))
 SP_SHAPES_Q = ((1, 1), (1, 2), (2, 1), (2, 2))
@@ -580,7 +649,7 @@ def ncells(kind, shapes):
 
 
 def plan(tier):
-    shards = []
+    shards = [{'kind': 'change'}]
     for kind, shapes, alpha, vset, chunk in families(tier):
         total = len(alpha) ** ncells(kind, shapes)
         for lo in range(0, total, chunk):
@@ -601,6 +670,11 @@ def fill_at(alpha, n, idx):
 
 def run_shard(shard, ctx):
     kind = shard['kind']
+    if kind == 'change':
+        run_change(ctx)
+        ctx.sample({'family': 'after-change',
+                    'history': 'evaluate =MAX(A1:B3); set A2; evaluate again'})
+        return
     shapes = shard['shapes']
     n = ncells(kind, shapes) if kind == 'agg' else \
         sum(a * b for a, b in shapes)
@@ -629,6 +703,9 @@ def run_shard(shard, ctx):
 
 
 def replay(inputs, ctx):
+    if inputs['family'] == 'change':
+        run_change(ctx)
+        return
     if inputs['family'] == 'agg':
         nr, nc = inputs['shape']
         run_agg_fill(nr, nc, inputs['fill'], inputs['vset'], ctx,
